@@ -1,6 +1,7 @@
 import Rv.Model.Fetch
 import Rv.Spec.Range
 import Rv.Lemmas.FetchB
+import Rv.Lemmas.FetchEnv
 /-
   C09 / C16 / C07 / C01 at the request level: whatever happens inside the proxy,
   the client gets an answer derived from an origin answer.
@@ -72,5 +73,159 @@ theorem status_valid (cfg : Cfg) (tbl : Nat → Option ORes) (c : Cache) (now : 
     (ho : ∀ k o, tbl k = some o → 100 ≤ o.status ∧ o.status ≤ 599) :
     100 ≤ (handle cfg tbl c now r).1.status ∧ (handle cfg tbl c now r).1.status ≤ 599 :=
   Rv.Lemmas.FetchB.status_valid cfg tbl c now r hinv ho
+
+/-! ### C09 for every mid-flight cache
+
+  `handleEnv cfg tbl c cMid now r` is `handle` with the window of
+  proxy/fetcher.go made explicit: `c` is the store as `getFromCacheOrFetch`
+  looked it up, `cMid` is the store as `fetchUpstream` / `handleUpstream200` /
+  `handleUpstream304` find it when the origin's answer arrives. Eviction,
+  cleanup, a DELETE or another request's store may have run in between, so
+  NOTHING is assumed about `cMid`. "A cache-side failure never fails the
+  client" is stated for all of them. -/
+
+/-- the stored `Last-Modified` as a conditional request carries it (same
+    definition as `Rv.Props.C06.lmOf`). -/
+def lmOf (e : CEntry) : Option Int := match e.o.lm with | .at l => some l | _ => none
+
+/-- (c) when nothing touched the store in the window, `handleEnv` IS `handle`:
+    the theorems above are the `cMid = c` instances of those below. -/
+theorem env_agrees_when_unchanged (cfg : Cfg) (tbl : Nat → Option ORes) (c : Cache) (now : Int) (r : Req) :
+    handleEnv cfg tbl c c now r = handle cfg tbl c now r := rfl
+
+/-- whatever happened to the store while the origin was answering, the status
+    the client gets is the origin's answer to one of the upstream requests this
+    very request made, or one of the proxy's deliberate 200 / 206 / 416
+    (`dedupFetch` turns every `ErrNotCacheable` of `fetchUpstream` into a direct
+    fetch, so `handleHTTP`'s error branch is never taken). -/
+theorem status_comes_from_origin_env (cfg : Cfg) (tbl : Nat → Option ORes) (c cMid : Cache) (now : Int) (r : Req) :
+    (∃ u ∈ (handleEnv cfg tbl c cMid now r).2.2,
+        (handleEnv cfg tbl c cMid now r).1.status = ansStatus (originAnswer tbl u)) ∨
+    (handleEnv cfg tbl c cMid now r).1.status = 200 ∨ (handleEnv cfg tbl c cMid now r).1.status = 206 ∨
+    ((handleEnv cfg tbl c cMid now r).1.status = 416 ∧ cfg.retryInvalidRange = false) :=
+  Rv.Lemmas.FetchEnv.status_comes_from_origin_env cfg tbl c cMid now r
+
+/-- a 502 / 500 that reaches the client is never the proxy's own: it is the
+    status of the origin's answer to an upstream request in this request's log
+    (`relay` passes an origin 5xx through unchanged — the only way `handleEnv`
+    can say 502, for any `c` and any `cMid`). -/
+theorem gateway_error_is_the_origins_env (cfg : Cfg) (tbl : Nat → Option ORes) (c cMid : Cache) (now : Int) (r : Req)
+    (k : Nat) (hk : k = 502 ∨ k = 500) (h : (handleEnv cfg tbl c cMid now r).1.status = k) :
+    ∃ u ∈ (handleEnv cfg tbl c cMid now r).2.2, ansStatus (originAnswer tbl u) = k :=
+  Rv.Lemmas.FetchEnv.gateway_error_is_the_origins_env cfg tbl c cMid now r k hk h
+
+/-- `never_gateway_error` for every mid-flight cache. -/
+theorem never_gateway_error_env (cfg : Cfg) (tbl : Nat → Option ORes) (c cMid : Cache) (now : Int) (r : Req) :
+    (handleEnv cfg tbl c cMid now r).1.status ≠ 502 ∧ (handleEnv cfg tbl c cMid now r).1.status ≠ 500
+      ∨ ∃ u, (ansStatus (originAnswer tbl u) = 502 ∨ ansStatus (originAnswer tbl u) = 500) :=
+  Rv.Lemmas.FetchEnv.never_gateway_error_env cfg tbl c cMid now r
+
+/-- (a) a cache-side failure never fails the client: no 502, for every store at
+    lookup time and every store in the window. The hypothesis on the origin is
+    NECESSARY, not a convenience: an origin resource whose own status is 502 is
+    relayed as 502 (see the `example` below), which is the origin failing, not
+    the cache. It is the weakest such hypothesis on `tbl`: by
+    `gateway_error_is_the_origins_env` a 502 is always an origin record's. -/
+theorem never_bad_gateway_env (cfg : Cfg) (tbl : Nat → Option ORes) (c cMid : Cache) (now : Int) (r : Req)
+    (ho : ∀ k o, tbl k = some o → o.status ≠ 502) :
+    (handleEnv cfg tbl c cMid now r).1.status ≠ 502 :=
+  Rv.Lemmas.FetchEnv.never_bad_gateway_env cfg tbl c cMid now r ho
+
+/-- (b) proxy/fetcher.go `handleUpstream304`: the lookup found a stale entry,
+    `fetchUpstream` sent the conditional request built from its validators, the
+    origin said 304 — and by then the entry was gone from the store
+    (`UpdateMetadata` / `Get` fail → `ErrNotCacheable`). `dedupFetch` falls back
+    to a direct fetch: the client gets the relay of the origin's answer to a
+    SECOND, unconditional request (no `If-None-Match`, no `If-Modified-Since`),
+    labelled as a miss, and the store is left exactly as it was found. -/
+theorem vanished_entry_falls_back_env (cfg : Cfg) (tbl : Nat → Option ORes) (c cMid : Cache) (now : Int) (r : Req)
+    (e : CEntry) (o' : ORes)
+    (hm : r.method = "GET") (hr : r.range = none) (he : lookup c r.res r.query = some e) (hs : e.expires < now)
+    (ha : originAnswer tbl { res := r.res, method := "GET", query := r.query, inm := e.o.etag, ims := lmOf e, range := none } = .notModified o')
+    (hv : lookup cMid r.res r.query = none) :
+    (handleEnv cfg tbl c cMid now r).2.2 =
+      [{ res := r.res, method := "GET", query := r.query, inm := e.o.etag, ims := lmOf e, range := none },
+       { res := r.res, method := "GET", query := r.query, inm := "", ims := none, range := none }] ∧
+    (handleEnv cfg tbl c cMid now r).1 = relay (originAnswer tbl (upReq r none)) "GET" .miss ∧
+    (handleEnv cfg tbl c cMid now r).1.status = ansStatus (originAnswer tbl (upReq r none)) ∧
+    (handleEnv cfg tbl c cMid now r).2.1 = cMid := by
+  have h := Rv.Lemmas.FetchEnv.vanished_entry_falls_back_env cfg tbl c cMid now r e o' hm hr he hs ha hv
+  rw [h]
+  refine ⟨?_, ?_, rfl, rfl⟩
+  · show [_, upReq r none] = _
+    simp only [upReq, hm]
+    rfl
+  · show relay _ r.method .miss = _
+    rw [hm]
+
+/-- … in the shape asked of the log: two upstream requests, the second without
+    validators; and the status is the second answer's — in particular not a
+    502 of the proxy's making. -/
+theorem vanished_entry_second_request_unconditional (cfg : Cfg) (tbl : Nat → Option ORes) (c cMid : Cache) (now : Int) (r : Req)
+    (e : CEntry) (o' : ORes)
+    (hm : r.method = "GET") (hr : r.range = none) (he : lookup c r.res r.query = some e) (hs : e.expires < now)
+    (ha : originAnswer tbl { res := r.res, method := "GET", query := r.query, inm := e.o.etag, ims := lmOf e, range := none } = .notModified o')
+    (hv : lookup cMid r.res r.query = none) :
+    (handleEnv cfg tbl c cMid now r).2.2.length = 2 ∧
+    (∃ u1 u2, (handleEnv cfg tbl c cMid now r).2.2 = [u1, u2] ∧ u2.inm = "" ∧ u2.ims = none ∧
+      (handleEnv cfg tbl c cMid now r).1.status = ansStatus (originAnswer tbl u2)) ∧
+    ((∀ k o, tbl k = some o → o.status ≠ 502) → (handleEnv cfg tbl c cMid now r).1.status ≠ 502) := by
+  obtain ⟨h1, _, h3, _⟩ := vanished_entry_falls_back_env cfg tbl c cMid now r e o' hm hr he hs ha hv
+  refine ⟨by rw [h1]; rfl, ⟨_, _, h1, rfl, rfl, ?_⟩, never_bad_gateway_env cfg tbl c cMid now r⟩
+  rw [h3]
+  simp only [upReq, hm]
+
+/-! #### the hypotheses are satisfiable, the side condition of (a) is needed -/
+
+section Examples
+
+/-- a cacheable 200 with an ETag, answering 304 to a matching `If-None-Match`. -/
+def exO : ORes :=
+  { status := 200, ver := 1, size := 10, etag := "v1", lm := .none, cc := [], expires := .absent,
+    rangeMode := "ignore", cond := true, age := none, hdrset := 0 }
+
+def exCfg : Cfg :=
+  { ignoreCC := false, forceDefault := false, defaultMaxAge := 1000, retryInvalidRange := true, retry416 := true,
+    fileBackend := false }
+
+def exReq : Req :=
+  { res := 1, method := "GET", query := "", range := none, ifRangeEtag := none, ifRangeDate := none, hasBody := false }
+
+/-- stored at 0, expired at 5. -/
+def exEntry : CEntry := { res := 1, query := "", o := exO, expires := 5, timeWritten := 0 }
+
+def exTbl : Nat → Option ORes := fun k => if k = 1 then some exO else none
+
+/-- the hypotheses of (b) hold at `now = 100` with `c = [exEntry]`, `cMid = []`
+    (the entry was evicted in the window) … -/
+example :
+    exReq.method = "GET" ∧ exReq.range = none ∧ lookup [exEntry] exReq.res exReq.query = some exEntry ∧
+    exEntry.expires < 100 ∧
+    originAnswer exTbl { res := exReq.res, method := "GET", query := exReq.query, inm := exEntry.o.etag,
+                         ims := lmOf exEntry, range := none } = .notModified exO ∧
+    lookup [] exReq.res exReq.query = none := by decide
+
+/-- … and the request then behaves as (b) says: conditional request, 304, entry
+    gone, unconditional request, its 200 relayed with the origin's body. -/
+example :
+    (handleEnv exCfg exTbl [exEntry] [] 100 exReq).1.status = 200 ∧
+    (handleEnv exCfg exTbl [exEntry] [] 100 exReq).1.body = .origin 1 0 10 ∧
+    (handleEnv exCfg exTbl [exEntry] [] 100 exReq).2.2.map (fun u => (u.inm, u.ims)) = [("v1", none), ("", none)] ∧
+    (handleEnv exCfg exTbl [exEntry] [] 100 exReq).2.1 = [] := by decide
+
+/-- without the window (`cMid = c`) the same request is a plain revalidation. -/
+example :
+    (handle exCfg exTbl [exEntry] 100 exReq).1.label = .revalidated ∧
+    (handle exCfg exTbl [exEntry] 100 exReq).2.2.length = 1 := by decide
+
+/-- the side condition of (a) cannot be dropped: an origin whose resource
+    answers 502 is relayed as 502 (here on an empty store, no cache involved). -/
+example :
+    (handleEnv exCfg (fun _ => some { exO with status := 502 }) [] [] 100 exReq).1.status = 502 := by decide
+
+/-- an unknown resource (`.missing`) is a 404, not a 502. -/
+example : (handleEnv exCfg (fun _ => none) [exEntry] [] 100 exReq).1.status = 404 := by decide
+
+end Examples
 
 end Rv.Props.C09
